@@ -216,6 +216,29 @@ def takes_self(pt, pz, pw, py, a, t, z, w, y):
         if (obj.a, obj.t, obj.z, obj.w, obj.y) != (a, t if pt else a + 100, ez, w if pw else ez + 1, y if py else 9): return False
     return True
 
+# ---- parameter name differs from the field id (attrs private attributes), keyword-only and after a skipped field
+@attr.s(auto_attribs=True, kw_only=True)
+class Priv:
+    a: int
+    _b: int = 5
+@attr.s(auto_attribs=True)
+class Priv2:
+    a: int
+    s: int = 1
+    _c: int = 3
+PRIV_LOADERS = {dt: (Retort(debug_trail=dt).get_loader(Priv), Retort(recipe=[name_mapping(Priv2, skip=["s"])], debug_trail=dt).get_loader(Priv2)) for dt in DT_MODES}
+def priv(pb, pc, a, b, c):
+    for dt in DT_MODES:
+        l1, l2 = PRIV_LOADERS[dt]
+        d1 = {"a": a}; d2 = {"a": a}
+        if pb: d1["_b"] = b
+        if pc: d2["_c"] = c
+        o1, o2 = outcome(l1, d1), outcome(l2, d2)
+        if o1[0] != "ok" or o2[0] != "ok": return False
+        if (o1[2].a, o1[2]._b) != (a, b if pb else 5): return False
+        if (o2[2].a, o2[2].s, o2[2]._c) != (a, 1, c if pc else 3): return False
+    return True
+
 # ---- default factories: fresh result for each loaded object
 @dataclasses.dataclass
 class DF:
@@ -274,6 +297,9 @@ def build(tier, seed):
           "return takes_self(pt, pz, pw, py, a, t, z, w, y)", timeout=tmo,
           family="end-to-end: optional parameters the constructor must fill itself (factory taking self) between other parameters",
           bounds="all 16 presence subsets of 4 optional parameters, symbolic int values, 3 debug modes")
+    me.ob("param_name_vs_field_id", "pb: bool, pc: bool, a: int, b: int, c: int", "return priv(pb, pc, a, b, c)", timeout=tmo,
+          family="end-to-end: constructor parameter named differently from the field id (attrs private attributes)",
+          bounds="keyword-only private attribute; private attribute after a skipped field; presence bits, symbolic values, 3 debug modes")
     me.ob("factories_fresh", "a: int, b: int", "return df(a, b)", timeout=tmo,
           family="end-to-end: default factories give a fresh object per load", bounds="list/dict/set factories, two loads")
     return Plan("C08", [m, me], assumptions=["constructor instrumentation via __post_init__/__init__ call log"],
